@@ -14,7 +14,8 @@ decoder wrappers, Python's `int(x, 16)`, CRC-32/Adler-32 and BytesQueueBuffer di
 Oracle (implementation only, also on really compressed streams): concatenation of all returned
 pieces == decoded payload (raw de-framed payload when decoding is off), read(n)/readinto(k)/read1(n)
 size rules, a short read(n) only at the end of the body, no empty stream piece, iteration yields
-lines, `.data`/preload equality, every read after the end returns b"".
+lines, `.data`/preload equality, every read after the end returns b""; `drain_conn()` (op `dc`) is a
+whole-body consumer that returns nothing: after it every read returns b"".
 """
 from __future__ import annotations
 
@@ -376,6 +377,10 @@ def drive(case, second_request=False) -> Run:
                         k = r.readinto(b)
                         d = bytes(b[:k])
                         run.tokens.append("ri=" + hx(d)); run.results.append((op, "bytes", d))
+                    elif tag == "dc":
+                        # drain_conn(): consumes what is left, returns nothing, swallows HTTPError / OSError
+                        r.drain_conn()
+                        run.tokens.append("dc"); run.results.append((op, "drain", None))
                     elif tag == "da":
                         d = r.data
                         d = d if isinstance(d, bytes) else b""
@@ -467,6 +472,11 @@ def oracle_c12(case, run: Run):
             continue
         if op[0] == "L":
             tag, arg = "L" + op[1:3], "~"
+        if kind == "drain":
+            # drain_conn() returned: everything that was left has been thrown away, every later read
+            # must return b"" (`cum` at the end makes the checks below demand exactly that)
+            cum = expected
+            continue
         amt = None if (arg in ("~", "") or kind == "data") else int(arg)
         if kind == "data":
             # `.data` / preload: everything that is left; once cached (non-empty) the same bytes again
@@ -560,7 +570,7 @@ def make_case(payload, coding, framing, seg, decode, ops, rng=None, parts=1, siz
 
 
 def terminal_ops(rng, framing, decode):
-    t = ["st1", "st3", "st64", "st1000", "st~", "da"]
+    t = ["st1", "st3", "st64", "st1000", "st~", "da", "dc"]
     if decode:
         t.append("it")
     if framing == "chunked":
@@ -578,7 +588,8 @@ class C12(Prop):
             "call sequences over {read(), read(n), read1(n), read1(), readinto(k), read(0)}, n in {1,2,3,7,64,1000}: "
             "exhaustive for length<=2 (quick; <=3 thorough) on 6 small bodies, random up to length 8 beyond, followed "
             "by a final read() and after-end probes; whole-body consumers stream(n), read_chunked(n), iteration, .data, "
-            "preload from the start (stream also after a prefix on non-chunked bodies). Every returned piece, "
+            "preload, drain_conn() from the start (stream also after a prefix on non-chunked bodies, drain_conn() "
+            "after any read-family prefix). Every returned piece, "
             "exception class and the final state are compared with the Lean model; the oracle checks concatenation == "
             "payload, size rules, no empty piece, after-end reads empty. non-trivial = body non-empty and >= 2 calls "
             "returned data")
@@ -707,6 +718,12 @@ class C12(Prop):
                     yield make_case(p, coding, framing, seg, decode, list(seq) + TAIL, rng, parts,
                                     rng.choice([(), (1,), (2, 0, 3)]), rng.choice([(), (1, 2), (3,), (1, 1, 1, 1)]),
                                     rng.random() < 0.2, kind=f"exh{L}")
+            # drain_conn() after every read-family prefix of length <= 1, then the after-end probes
+            for pre in [()] + [(o,) for o in READ_OPS]:
+                parts = rng.choice([1, 2]) if coding in MULTI_OK else 1
+                yield make_case(p, coding, framing, rng.choice([1, 2, 3, 7, 64, 0]), rng.random() < 0.75,
+                                list(pre) + ["dc"] + TAIL, rng, parts, rng.choice([(), (1,), (2, 0, 3)]),
+                                rng.choice([(), (1, 2), (3,), (1, 1, 1, 1)]), rng.random() < 0.2, kind="drain")
             # whole-body consumers from the start
             for decode in (True, False):
                 for t in terminal_ops(rng, framing, decode):
@@ -756,8 +773,8 @@ class C12(Prop):
         z = rng.random()
         if z < 0.25:
             t = rng.choice(terminal_ops(rng, framing, decode))
-            if framing == "chunked" or t in ("da",) or t.startswith("rc"):
-                ops = []
+            if t != "dc" and (framing == "chunked" or t in ("da",) or t.startswith("rc")):
+                ops = []                     # (drain_conn is `read()`: it may follow any read-family prefix)
             if t == "it" and any(True for _ in ops) and framing == "chunked":
                 ops = []
             ops.append(t)
